@@ -148,6 +148,197 @@ def hoisted_consts(fn, loop, ivar, seq):
     return out
 
 
+# ---- the run-scanner idiom --------------------------------------------------------------------------------------------
+#   out = [str(x) for x in L];  S = 0
+#   while S < n (or n - 1):
+#       E = S
+#       while E < n - 1 and T[E]:  E += 1          # the longest stretch in which every element is tied with its successor
+#       if E > S:  out[S] = PRE + out[S];  out[E] += SUF      (or: bounds.append((S, E)), decorated by the caller's loop)
+#       S = E + 1
+# Every index belongs to exactly one run [S, E]; E is the first index >= S that is the last one or not tied with its
+# successor.  Hence, reading left to right with in_tie = "inside a run that started earlier": an element that is not the
+# last and is tied with its successor opens a run (when outside) or continues it; any other element closes the run it is in
+# or stands alone.  That is the table below, with the two decorations taken from the code.
+def _lin(e, env, n_names):
+    """linear form over {n, var}: e -> (coefficient of n, constant, variable name or None) or None"""
+    if isinstance(e, ast.Constant) and isinstance(e.value, int) and not isinstance(e.value, bool):
+        return (0, e.value, None)
+    if isinstance(e, ast.Name):
+        if e.id in env:
+            return _lin(env[e.id], {k: v for k, v in env.items() if k != e.id}, n_names)
+        return (0, 0, e.id)
+    if isinstance(e, ast.Call) and isinstance(e.func, ast.Name) and e.func.id == 'len' and len(e.args) == 1 and isinstance(e.args[0], ast.Name) and e.args[0].id in n_names:
+        return (1, 0, None)
+    if isinstance(e, ast.BinOp) and isinstance(e.op, (ast.Add, ast.Sub)):
+        a, b = _lin(e.left, env, n_names), _lin(e.right, env, n_names)
+        if a is None or b is None or (a[2] and b[2]):
+            return None
+        sg = 1 if isinstance(e.op, ast.Add) else -1
+        if sg == -1 and b[2]:
+            return None
+        return (a[0] + sg * b[0], a[1] + sg * b[1], a[2] or b[2])
+    return None
+
+
+def _upper_bound(test, var, env, n_names):
+    """test is `var (+ c) < X` / `var (+ c) <= X` (either orientation) -> the exclusive bound on var as (coef of n, constant)"""
+    if not (isinstance(test, ast.Compare) and len(test.ops) == 1):
+        return None
+    l, r, op = _lin(test.left, env, n_names), _lin(test.comparators[0], env, n_names), test.ops[0]
+    if l is None or r is None:
+        return None
+    if r[2] == var and l[2] is None:
+        l, r = r, l
+        op = {ast.Gt: ast.Lt, ast.GtE: ast.LtE}.get(type(op), type(None))()
+    if l[2] != var or r[2] is not None or l[0] != 0 or not isinstance(op, (ast.Lt, ast.LtE)):
+        return None
+    c = r[1] - l[1] + (1 if isinstance(op, ast.LtE) else 0)
+    return (r[0], c)            # var < r0 * n + c
+
+
+def run_scanner(fn, listp, tiep, resolver):
+    """-> (prefix, suffix) when fn is the run-scanner idiom over (listp, tiep), else None"""
+    body = [s for s in fn.body if not (isinstance(s, ast.Expr) and isinstance(s.value, ast.Constant))]
+    env, out = {}, None
+    k = 0
+    while k < len(body) and isinstance(body[k], ast.Assign) and len(body[k].targets) == 1 and isinstance(body[k].targets[0], ast.Name):
+        t, v = body[k].targets[0].id, body[k].value
+        if isinstance(v, ast.ListComp) and len(v.generators) == 1 and isinstance(v.generators[0].iter, ast.Name) and v.generators[0].iter.id == listp and not v.generators[0].ifs \
+                and isinstance(v.elt, ast.Call) and isinstance(v.elt.func, ast.Name) and v.elt.func.id == 'str' and len(v.elt.args) == 1 \
+                and isinstance(v.elt.args[0], ast.Name) and isinstance(v.generators[0].target, ast.Name) and v.elt.args[0].id == v.generators[0].target.id:
+            out = t
+        else:
+            env[t] = v
+        k += 1
+    if out is None or k >= len(body):
+        return None
+    n_names = {listp, out}
+    rest = body[k:]
+    if not (isinstance(rest[-1], ast.Return) and isinstance(rest[-1].value, ast.Name) and rest[-1].value.id == out):
+        return None
+    rest = rest[:-1]
+
+    def scan(loop, env, n_names, tie_name):
+        """the outer while of the idiom -> (S, E, action statements) or None"""
+        if not (isinstance(loop, ast.While) and not loop.orelse and len(loop.body) >= 4):
+            return None
+        b = loop.body
+        if not (isinstance(b[0], ast.Assign) and len(b[0].targets) == 1 and isinstance(b[0].targets[0], ast.Name) and isinstance(b[0].value, ast.Name)):
+            return None
+        E, S = b[0].targets[0].id, b[0].value.id
+        s_init = env.get(S)
+        env = {k_: v_ for k_, v_ in env.items() if k_ not in (S, E)}          # the two positions are variables, not their initial values
+        ob = None
+        for tst in ([loop.test] if not isinstance(loop.test, ast.BoolOp) else []):
+            ob = _upper_bound(tst, S, env, n_names)
+        if ob not in ((1, 0), (1, -1)) or s_init is None or _lin(s_init, {}, n_names) != (0, 0, None):
+            return None                                   # S runs from 0 while S < n (or n - 1)
+        inner = b[1]
+        if not (isinstance(inner, ast.While) and not inner.orelse and isinstance(inner.test, ast.BoolOp) and isinstance(inner.test.op, ast.And) and len(inner.test.values) == 2):
+            return None
+        bound, tied = inner.test.values
+        if _upper_bound(bound, E, env, n_names) != (1, -1):
+            return None                                   # the bound comes first (short-circuit protects T[E]) and is E < n - 1
+        if not (isinstance(tied, ast.Subscript) and isinstance(tied.value, ast.Name) and tied.value.id == tie_name and isinstance(tied.slice, ast.Name) and tied.slice.id == E):
+            return None
+        if not (len(inner.body) == 1 and isinstance(inner.body[0], ast.AugAssign) and isinstance(inner.body[0].op, ast.Add) and isinstance(inner.body[0].target, ast.Name)
+                and inner.body[0].target.id == E and isinstance(inner.body[0].value, ast.Constant) and inner.body[0].value.value == 1):
+            return None
+        guard, step = b[2], b[-1]
+        if len(b) != 4 or not (isinstance(guard, ast.If) and not guard.orelse):
+            return None
+        g = guard.test
+        ok_g = isinstance(g, ast.Compare) and len(g.ops) == 1 and isinstance(g.left, ast.Name) and isinstance(g.comparators[0], ast.Name) and (
+            (isinstance(g.ops[0], ast.Gt) and (g.left.id, g.comparators[0].id) == (E, S)) or (isinstance(g.ops[0], ast.Lt) and (g.left.id, g.comparators[0].id) == (S, E))
+            or (isinstance(g.ops[0], ast.NotEq) and {g.left.id, g.comparators[0].id} == {S, E}))
+        if not ok_g:
+            return None
+        if not (isinstance(step, ast.Assign) and len(step.targets) == 1 and isinstance(step.targets[0], ast.Name) and step.targets[0].id == S
+                and _lin(step.value, {}, n_names) == (0, 1, E)):
+            return None
+        return S, E, guard.body
+
+    def decorations(stmts, first, last, outname):
+        """out[first] = PRE + out[first]; out[last] += SUF (any order, either assignment form) -> (PRE, SUF)"""
+        pre = suf = None
+        if len(stmts) != 2:
+            return None
+        for s in stmts:
+            tgt = s.target if isinstance(s, ast.AugAssign) else (s.targets[0] if isinstance(s, ast.Assign) and len(s.targets) == 1 else None)
+            if not (isinstance(tgt, ast.Subscript) and isinstance(tgt.value, ast.Name) and tgt.value.id == outname and isinstance(tgt.slice, ast.Name)):
+                return None
+            pos = tgt.slice.id
+            same = lambda e: isinstance(e, ast.Subscript) and isinstance(e.value, ast.Name) and e.value.id == outname and isinstance(e.slice, ast.Name) and e.slice.id == pos
+            lit = lambda e: e.value if isinstance(e, ast.Constant) and isinstance(e.value, str) else None
+            if isinstance(s, ast.AugAssign) and isinstance(s.op, ast.Add) and lit(s.value) is not None:
+                p_, s_ = None, lit(s.value)
+            elif isinstance(s, ast.Assign) and isinstance(s.value, ast.BinOp) and isinstance(s.value.op, ast.Add) and same(s.value.right) and lit(s.value.left) is not None:
+                p_, s_ = lit(s.value.left), None
+            elif isinstance(s, ast.Assign) and isinstance(s.value, ast.BinOp) and isinstance(s.value.op, ast.Add) and same(s.value.left) and lit(s.value.right) is not None:
+                p_, s_ = None, lit(s.value.right)
+            else:
+                return None
+            if pos == first and p_ is not None and pre is None:
+                pre = p_
+            elif pos == last and s_ is not None and suf is None:
+                suf = s_
+            else:
+                return None
+        return (pre, suf) if pre is not None and suf is not None else None
+
+    # shape A: the scan in the writer itself
+    if len(rest) == 1 and isinstance(rest[0], ast.While):
+        r = scan(rest[0], env, n_names, tiep)
+        if r is None:
+            return None
+        S, E, act = r
+        return decorations(act, S, E, out)
+    # shape B: for F, Lx in helper(T, len(out)): decorate   with the scan in the helper, which appends (S, E)
+    if len(rest) == 1 and isinstance(rest[0], ast.For) and isinstance(rest[0].target, ast.Tuple) and len(rest[0].target.elts) == 2 and all(isinstance(x, ast.Name) for x in rest[0].target.elts) \
+            and isinstance(rest[0].iter, ast.Call) and isinstance(rest[0].iter.func, ast.Name) and resolver is not None:
+        h = resolver(rest[0].iter.func.id)
+        if h is None:
+            return None
+        hp = [a.arg for a in h.args.args]
+        args = rest[0].iter.args
+        if len(args) != len(hp) or len(hp) != 2:
+            return None
+        henv, h_n, h_tie = {}, set(), None
+        for p_, a_ in zip(hp, args):
+            if isinstance(a_, ast.Name) and a_.id == tiep:
+                h_tie = p_
+            elif _lin(a_, env, n_names) == (1, 0, None):
+                henv[p_] = ast.Call(func=ast.Name(id='len', ctx=ast.Load()), args=[ast.Name(id='__n__', ctx=ast.Load())], keywords=[])
+                h_n.add('__n__')
+            else:
+                return None
+        if h_tie is None or not h_n:
+            return None
+        hb = [s for s in h.body if not (isinstance(s, ast.Expr) and isinstance(s.value, ast.Constant))]
+        acc = None
+        j = 0
+        while j < len(hb) and isinstance(hb[j], ast.Assign) and len(hb[j].targets) == 1 and isinstance(hb[j].targets[0], ast.Name):
+            if isinstance(hb[j].value, ast.List) and not hb[j].value.elts:
+                acc = hb[j].targets[0].id
+            else:
+                henv[hb[j].targets[0].id] = hb[j].value
+            j += 1
+        if acc is None or len(hb) != j + 2 or not (isinstance(hb[-1], ast.Return) and isinstance(hb[-1].value, ast.Name) and hb[-1].value.id == acc):
+            return None
+        r = scan(hb[j], henv, h_n, h_tie)
+        if r is None:
+            return None
+        S, E, act = r
+        ok_act = len(act) == 1 and isinstance(act[0], ast.Expr) and isinstance(act[0].value, ast.Call) and isinstance(act[0].value.func, ast.Attribute) and act[0].value.func.attr == 'append' \
+            and isinstance(act[0].value.func.value, ast.Name) and act[0].value.func.value.id == acc and len(act[0].value.args) == 1 and isinstance(act[0].value.args[0], ast.Tuple) \
+            and [getattr(x, 'id', None) for x in act[0].value.args[0].elts] == [S, E]
+        if not ok_act:
+            return None
+        F, Lx = (x.id for x in rest[0].target.elts)
+        return decorations(rest[0].body, F, Lx, out)
+    return None
+
+
 class WriterTable:
     """(in_tie, t, last) -> (token class, (prefix, suffix), in_tie')"""
     def __init__(self, func, resolver=None, ties_are_arrays=False):
@@ -158,6 +349,16 @@ class WriterTable:
         if len(params) < 2:
             raise Unknown('tie writer takes (list, tie indicators)')
         self.listp, self.tiep = params[0], params[1]
+        rs = run_scanner(fn, self.listp, self.tiep, resolver)
+        if rs is not None:
+            pre, suf = rs
+            self.loop, self.states, self.outs, self.init = None, [], [], False
+            self.table = {(False, 0, False): ('PLAIN', ('', ''), False), (False, 0, True): ('PLAIN', ('', ''), False),
+                          (False, 1, False): ('OPEN', (pre, ''), True), (False, 1, True): ('PLAIN', ('', ''), False),
+                          (True, 0, False): ('CLOSE', ('', suf), False), (True, 0, True): ('CLOSE', ('', suf), False),
+                          (True, 1, False): ('PLAIN', ('', ''), True), (True, 1, True): ('CLOSE', ('', suf), True)}
+            self.mode = 'run scanner'
+            return
         loop = find_loop(fn)
         seq, ivar, evar = loop_shape(loop, params, inits_before(fn, loop))
         self.loop = loop
